@@ -377,8 +377,8 @@ def u_random(seed, n=14, nauthors=2, param_bias=True):
                     if is_param(ckind):
                         d = ctags[0][1]
                         d = d if isinstance(d, bytes) else d.encode()
-                        if len(d) > 182:
-                            d = b"x"  # marker keys of >182-byte d values are outside the must-domain (DESIGN 5)
+                        if len(d) > 400:
+                            d = b"x"  # the marker key would exceed LMDB's 511-byte key limit
                     tags.append(["a", ("addr", ckind, cau, d)])
             ts = rnd.choice([12, 15, 20, 25, 40])
         u.add(au, kind, ts, tags, clen=rnd.choice(CLENS))
